@@ -35,6 +35,7 @@ func runC01(r *Report, p *Program) {
 	c01R6(h)
 	c01R7(h)
 	c01R8(h)
+	c01R9(h)
 }
 
 func isEdgesMapLookup(in ssa.Instruction) (*ssa.Lookup, bool) {
